@@ -1,14 +1,18 @@
 #!/bin/sh
-# development helper (not registered): apply every /verif/seeded/<id>/patch.diff to /repo in turn, run the quick check of
-# the property it breaks, revert, and print one line per seeded change.  usage: bin/seeded_matrix.sh [id-substring] [tier]
+# development helper (not registered): apply every /verif/seeded/<id>/patch.diff in turn to a scratch worktree of /repo
+# (so /repo itself and checks running against it are not disturbed), run the check of the property it breaks with
+# VERIF_REPO pointing at the worktree, revert, and print one line per seeded change.
+# usage: bin/seeded_matrix.sh [id-substring] [tier]
 SEL=${1:-}; TIER=${2:-quick}
+WT=${VERIF_WT:-/tmp/verif_seed_wt.$$}
 cd /verif
+git -C /repo worktree add --detach -q "$WT" HEAD || exit 2
+trap 'git -C /repo worktree remove --force "$WT" 2>/dev/null; rm -rf "$WT"' EXIT INT TERM
 for d in seeded/*${SEL}*/; do
   id=$(basename "$d"); prop=$(python3 -c "import json;print(json.load(open('$d/meta.json'))['property'])")
   [ -f harness/$(echo $prop | tr A-Z a-z).py ] || { echo "$id: no harness for $prop"; continue; }
-  if ! git -C /repo apply "$PWD/$d/patch.diff" 2>/dev/null; then echo "$id: patch does not apply"; continue; fi
-  out=$(VERIF_FAIL_FAST=1 bin/check $prop $TIER --no-evidence 2>&1); rc=$?
-  git -C /repo checkout -- . 
+  if ! git -C "$WT" apply "$PWD/$d/patch.diff" 2>/dev/null; then echo "$id: patch does not apply"; continue; fi
+  out=$(VERIF_REPO="$WT" VERIF_FAIL_FAST=1 bin/check $prop $TIER --no-evidence 2>&1); rc=$?
+  git -C "$WT" checkout -q -- .
   echo "$id: rc=$rc $(echo "$out" | grep -c '^VIOLATION') violations; $(echo "$out" | grep -m1 'violated obligation' | cut -c1-160)"
 done
-git -C /repo status --short
